@@ -10,7 +10,7 @@ Extraction Blacklist List String Lex Parser Printf.
 Extraction "model.ml"
   Tables.toktype_order Tables.operator_order Tables.reducer_order Tables.symbols Tables.terminal_tokens
   Tables.from_string Tables.to_string Tables.validators Tables.renderers Tables.shared_fns Tables.postgres_own_fns
-  Lex.lex Lex.next_token Lex.decode_rune
+  Lex.lex Lex.next_token Lex.decode_rune Lex.linit Lex.lnext Lex.lpeek
   Parser.parse_toks Parser.parse_literal Parser.validate Parser.prec
   Render.str_e Render.render Render.render_param Render.marshal_e Render.pg_fn
   Decode.decode
